@@ -29,8 +29,8 @@ def is_optional(sc, f):
 
 
 class Gen:
-    def __init__(self, sc, rng):
-        self.sc, self.rng = sc, rng
+    def __init__(self, sc, rng, lossy_ts=False):
+        self.sc, self.rng, self.lossy_ts = sc, rng, lossy_ts
 
     def val(self, t, depth):
         rng, sc = self.rng, self.sc
@@ -56,7 +56,7 @@ class Gen:
         if k == 'bool':
             return {'k': 'bool', 'b': rng.random() < 0.5}
         if k == 'ts':
-            return {'k': 'ts', 'id': rng.choice([0, 1])}
+            return {'k': 'ts', 'id': rng.choice([0, 1, 2, 3] if self.lossy_ts and t['fmt'] in ('f1', 'f2') else [0, 1])}
         if k == 'void':
             return {'k': 'none'}
         if k == 'nullable':
@@ -97,14 +97,14 @@ class Gen:
         raise ValueError(t)
 
 
-def write_trace(path, schemas, per_cfg, seed, depth=4):
+def write_trace(path, schemas, per_cfg, seed, depth=4, lossy_ts=False):
     """schemas: {cfg index: (schema, roots)}.  Writes per_cfg random (root, value) lines for every schema."""
     rng = random.Random(seed)
     n = 0
     with open(path, 'w') as f:
         for cfg in sorted(schemas):
             sc, roots = schemas[cfg]
-            g = Gen(sc, rng)
+            g = Gen(sc, rng, lossy_ts)
             for _ in range(per_cfg):
                 ri = rng.randrange(len(roots))
                 v = g.val(roots[ri], depth)
